@@ -20,7 +20,7 @@ class C15(Prop):
     assumptions = []
 
     def n(self, tier):
-        return 700 if tier == 'quick' else 12000
+        return 1000 if tier == 'quick' else 12000
 
     def cases(self, tier, rng):
         g = Gen(rng)
@@ -48,8 +48,14 @@ class C15(Prop):
             base_owned = owned_names([t for t, _ in items])
             pool = BOTH if plan['enum'] else BOTH + STRUCT_ONLY
             extra = []
+            cmp_pool = ['Ord', 'PartialOrd', 'Eq', 'PartialEq', 'Hash']
+            have = [t for t, _ in items]
             for _ in range(1 + rng.randrange(2)):
-                t = pool[rng.randrange(len(pool))]
+                # half of the time a comparison trait: these share helper attributes with one another, so co-deriving
+                # them is where an impl could come to depend on its neighbours
+                t = cmp_pool[rng.randrange(5)] if rng.random() < 0.5 else pool[rng.randrange(len(pool))]
+                if t in have or any(t == e for e, _ in extra):
+                    continue
                 if not ((owned_names([t]) - base_owned) & present):
                     extra.append((t, None))
             if extra:
